@@ -1,6 +1,7 @@
 """C07 - k-mer counting is exact and independent of threads, chunking and partitioning."""
 import json, os, re
 import vlib
+import mmcommon as mm
 
 
 def schedules(ctx, w, lim, simulate=None):
@@ -80,4 +81,5 @@ def run(ctx):
     vlib.validate_trace(ctx, "FactsTrace", st, "contention stress: 2000 identical records x 16 threads (no hooks)", "ctrstress")
     ctx.evaluations += sruns
     ctx.nontrivial += sruns
+    mm.tinv(ctx, "ctr", 20000 if ctx.thorough() else 6000)
     ctx.exhaustive = False
